@@ -24,6 +24,35 @@ RULES = {
     "C04": "shadow walk over installed state: per class slot uniqueness over all applicable (method, parameter) pairs, "
            "slot inside the class's own v-table extent, cell owned by that pair, addresses inside dispatch_data, "
            "multi-method address arithmetic inside the method's table; non-trivial = MI graph with >= 2 methods",
+    "C05": "direct histories of hash_initialize on synthetic id sets (clustered pointers, strides, high-bit, small "
+           "integers, random 64-bit, type_info-like; sizes 0-600; grow / shrink / disjoint / empty / repeated steps on the "
+           "same policy), through full update on registries, with the guarded budget hook (1-50 attempts) and forked "
+           "exhaustion with a returning handler; after every successful install: injective, in range, control table "
+           "consistent, unregistered probes (neighbours, bit flips, stale ids, ids inverted to land in occupied and "
+           "empty buckets, 0, invalid_type) rejected with their own id; distinct = distinct id sets of size >= 2",
+    "C06": "one abstract registry materialised under all (small) or sampled permutations of its class-record, method "
+           "and definition registration orders; complete behaviour tables (every call outcome incl. reported ids, every "
+           "next) compared pairwise; non-trivial = MI graph or incomparable definitions; distinct = registry hash",
+    "C07": "random histories (5-40 operations) over a pool registry: add / remove class records (with everything that "
+           "depends on them, as unloading a library), attach / detach real method objects, add / remove definitions "
+           "(what ~definition_info does), update, update twice; after each update the complete behaviour table (calls, "
+           "reported errors, next) is compared with the stateless oracle on the registrations live at that point, a "
+           "repeated update must leave table and slots/strides unchanged, and a third of the histories are compared "
+           "with a hard-reset re-materialisation; eager, deferred, hashed, unhashed, map, indirect policies; "
+           "distinct = distinct (registry, operation log) with >= 2 updates",
+    "C08": "one graph materialised under 8-20 presentations (complete+self, direct only, direct+some indirect, "
+           "duplicated, split over several records, mixed) each satisfying the precondition; behaviour table compared "
+           "with the oracle on the true graph, plus the C04 slot/extent monitor; non-trivial = graph with at least one "
+           "indirect base",
+    "C09": "registries restricted to signature shapes with virtual_ptr / virtual_shared_ptr parameters; every tuple is "
+           "called with each construction route (from reference: shortcut and lookup branch, final, converting copy / "
+           "move from virtual_ptr<NodeD> with a non-zero base offset, copy, move, from a derived C++ object) and "
+           "compared with what the plain-reference call runs (oracle); get / * / -> / v-table pointer probed for every "
+           "class x route x plain/shared; then more methods and definitions are registered and update runs again: "
+           "indirect policies use the pointers created before, direct policies re-create them; distinct = (registry, world)",
+    "C10": "one registry materialised under 12 (policy, id flavour) combinations: integer ids, type_info pointers, "
+           "strides, high-bit ids, random 64-bit, many-to-one projection with every alias id carried by objects, "
+           "deferred ids; 1-3 updates each; tables compared with the oracle; distinct = registry hash",
     "C17": "update report flags compared with exhaustive oracle enumeration over all tuples of acceptable classes "
            "(all / concrete only), cells compared with the tables built; non-trivial = registry with >= 1 method",
 }
@@ -52,6 +81,18 @@ def plan(prop, tier):
         return harness_plan(prop, tier, [("rel", 8, 600), ("asan", 6, 200)], [("rel", 14, 12000), ("asan", 14, 3000)])
     if prop == "C04":
         return harness_plan(prop, tier, [("rel", 8, 500), ("asan", 8, 150)], [("rel", 12, 12000), ("asan", 16, 3000), ("clang-asan", 4, 800)])
+    if prop == "C05":
+        return harness_plan(prop, tier, [("rel", 10, 400), ("asan", 6, 120)], [("rel", 14, 30000), ("asan", 14, 6000)])
+    if prop == "C06":
+        return harness_plan(prop, tier, [("rel", 10, 60), ("asan", 6, 15)], [("rel", 14, 2500), ("asan", 14, 500)])
+    if prop == "C07":
+        return harness_plan(prop, tier, [("rel", 10, 400), ("asan", 6, 100)], [("rel", 14, 15000), ("asan", 14, 3000)])
+    if prop == "C08":
+        return harness_plan(prop, tier, [("rel", 10, 120), ("asan", 6, 30)], [("rel", 14, 3000), ("asan", 14, 700)])
+    if prop == "C09":
+        return harness_plan(prop, tier, [("rel", 10, 150), ("asan", 6, 40)], [("rel", 14, 5000), ("asan", 14, 1200)])
+    if prop == "C10":
+        return harness_plan(prop, tier, [("rel", 10, 100), ("asan", 6, 25)], [("rel", 14, 4000), ("asan", 14, 900)])
     if prop == "C17":
         return harness_plan(prop, tier, [("rel", 10, 500), ("asan", 4, 150)], [("rel", 14, 15000), ("asan", 10, 3000)])
     return None
